@@ -878,3 +878,89 @@ def nonempty_guard(rep, fns, rule, names, count_key):
             rep.violation(rule, k, fn_where(f), {"unguarded": bad, "problem": "on an empty view nth_channel_view dereferences pixel (0,0): a null or one-past pointer"})
         else:
             rep.ok(rule, k, "%d call(s), all after the emptiness test" % len(calls))
+
+
+# ---------------------------------------------------------------------------------------------------------------------
+# products computed in a narrow type and widened afterwards (needs astdump's from_c/to_c on integral casts)
+_TYRANGE = {"bool": (0, 1), "char": (-128, 127), "signed char": (-128, 127), "unsigned char": (0, 255), "short": (-32768, 32767), "unsigned short": (0, 65535),
+            "int": (-2 ** 31, 2 ** 31 - 1), "unsigned int": (0, 2 ** 32 - 1), "long": (-2 ** 63, 2 ** 63 - 1), "unsigned long": (0, 2 ** 64 - 1),
+            "long long": (-2 ** 63, 2 ** 63 - 1), "unsigned long long": (0, 2 ** 64 - 1)}
+_NARROW = {"int", "unsigned int", "short", "unsigned short", "char", "signed char", "unsigned char"}
+_WIDE = {"long", "unsigned long", "long long", "unsigned long long"}
+
+
+def _cty(t):
+    return (t or "").replace("const ", "").replace("volatile ", "").strip()
+
+
+def type_range(e):
+    """interval of an integral expression from the types of its leaves: promotions and widenings are looked through, so an `unsigned short` field promoted
+    to int still ranges over 0..65535; constants are exact; + - * / % >> & are interval arithmetic; anything else is the full range of its canonical type"""
+    if not isinstance(e, dict):
+        return None
+    k = e.get("k")
+    if "const" in e:
+        try:
+            v = int(str(e["const"]), 0)
+            return (v, v)
+        except ValueError:
+            pass
+    if k == "Paren":
+        return type_range(e["e"])
+    if k in ("ImplicitCast", "ExplicitCast") and e.get("from_c") is not None:
+        inner = type_range(e["e"]) or _TYRANGE.get(_cty(e["from_c"]))
+        outer = _TYRANGE.get(_cty(e["to_c"]))
+        if inner and outer and outer[0] <= inner[0] and inner[1] <= outer[1]:
+            return inner
+        return outer
+    if k in ("ImplicitCast", "ExplicitCast") and e.get("cast") in ("LValueToRValue", "NoOp"):
+        return type_range(e["e"])
+    if k == "Binary" and e.get("op") in ("+", "-", "*", "/", "%", ">>", "&"):
+        a, b = type_range(e["l"]), type_range(e["r"])
+        op = e["op"]
+        if a is None or b is None:
+            return None
+        if op == "+":
+            return (a[0] + b[0], a[1] + b[1])
+        if op == "-":
+            return (a[0] - b[1], a[1] - b[0])
+        if op == "*":
+            c = [a[0] * b[0], a[0] * b[1], a[1] * b[0], a[1] * b[1]]
+            return (min(c), max(c))
+        if op == "/" and b[0] == b[1] and b[0] > 0:
+            return (-(-a[0] // b[0]) if a[0] < 0 else a[0] // b[0], a[1] // b[0] if a[1] >= 0 else -(-a[1] // b[0]))
+        if op == ">>" and b[0] == b[1] and 0 <= b[0] < 64 and a[0] >= 0:
+            return (a[0] >> b[0], a[1] >> b[0])
+        if op == "%" and b[0] == b[1] and b[0] > 0:
+            return (-(b[0] - 1) if a[0] < 0 else 0, b[0] - 1)
+        if op == "&" and b[0] == b[1] and b[0] >= 0:
+            return (0, b[0])
+        return None
+    t = _cty(e.get("ctype") or e.get("type") or "")
+    return _TYRANGE.get(t)
+
+
+def widened_products(f, need_range=True):
+    """casts (implicit or explicit) from a <=32-bit integer type to a 64-bit one directly over a multiplication of run-time operands.
+    Each hit carries the interval of the product from the types of its leaves; `overflows` says that the interval leaves the type the product is computed in
+    (a witness is the pair of extreme operands). With need_range=False hits whose interval is unknown are returned too (overflows=None)."""
+    out = []
+    for x, _ in find(f["body"], lambda x: x.get("k") in ("ImplicitCast", "ExplicitCast") and x.get("from_c") is not None):
+        frm, to = _cty(x["from_c"]), _cty(x["to_c"])
+        if frm not in _NARROW or to not in _WIDE:
+            continue
+        e = x["e"]
+        while isinstance(e, dict) and e.get("k") == "Paren":
+            e = e["e"]
+        if not (isinstance(e, dict) and e.get("k") == "Binary" and e.get("op") == "*"):
+            continue
+        if "const" in e:
+            continue
+        r = type_range(e)
+        lim = _TYRANGE[frm]
+        ov = None if r is None else (r[0] < lim[0] or r[1] > lim[1])
+        if ov is None and need_range:
+            continue
+        out.append({"product": key(e), "computed_in": frm, "widened_to": to, "line": x.get("line"), "range": r, "overflows": ov,
+                    "operand_ranges": [type_range(e["l"]), type_range(e["r"])]})
+    return out
